@@ -395,6 +395,17 @@ class Oracle:
                 # still checked below and in later requests
                 self.probe("warning_raised_as_error")
                 self.tainted = True
+            if (not self.c19 and isinstance(obs.exc, UnicodeEncodeError) and not failing
+                    and any(any(0xD800 <= ord(ch) <= 0xDFFF for ch in w.keys[k]["res"]) for k in req)):
+                # a uri that is not valid Unicode (a file name with undecodable bytes, which Python carries as lone
+                # surrogates): the cache refuses it before anything is stored.  C18 speaks of paths that ARE returned;
+                # a refusal is accepted provided it leaves everything as it was
+                new_reg = {i for i, b in enumerate(obs.in_cache) if b}
+                if new_reg != reg or post_files.keys() != pre_files.keys():
+                    return self._v("18d", "a refused request (uri that is not valid Unicode) changed the cache: in_cache %s -> %s"
+                                   % (sorted(reg), sorted(new_reg)), obs)
+                self.probe("undecodable_uri_refused")
+                return None
             if not failing and not natural_missing and not warned:
                 clause = "19d-poison" if self.c19 else "18a"
                 return self._v(clause, "request %s raised %r although nothing failed in it" % (req, obs.exc), obs)
